@@ -1,7 +1,9 @@
 //! Throw-away probes (`jv scratch`), not part of any check.
 pub fn run() {
-    for s in ["EST5EDT,M3.2.0,M11.1.0", "IST-1GMT0,M10.5.0,M3.5.0/1", "<+1030>-10:30<+11>-11,M10.1.0,M4.1.0", "XXX3:12:34YYY1:45:56,J60/1:02:03,J300/4:05:06", "AAA-5:45BBB-6:15,70/3,280/1:30", "UTC0", "CET-1CEST,M3.5.0,M10.5.0/3"] {
-        let tz = jiff::tz::TimeZone::posix(s).unwrap();
-        println!("{s} => debug {:?} | alt {:#?} | iana {:?}", tz, tz, tz.iana_name());
+    use jiff::{civil::date, Span, Unit};
+    for d in [date(-9999, 1, 30), date(-9999, 1, 1), date(2024, 1, 1), date(9999, 12, 31), date(-9998, 1, 1)] {
+        for u in [Unit::Year, Unit::Month, Unit::Week, Unit::Day, Unit::Hour] {
+            println!("{d} {u:?} zero => {:?} ; 1day => {:?}; -1day => {:?}", Span::new().total((u, d)), Span::new().days(1).total((u, d)), Span::new().days(-1).total((u, d)));
+        }
     }
 }
